@@ -564,9 +564,10 @@ fn passes() -> Vec<Pass> {
         // the known triggers (statement-local counter, insert_batch, explicit ids the counter never sees)
         // removed so that the remainder reaches full depth
         Pass { name: "no-known-triggers", ops: without(&[MultiNextOmit, MultiOmitNext1Omit, BatchNext, BatchNull, UpdMaxToNext, InsNull, TxnCommitIns, InsExplicitLarge]), depth_quick: 4, depth_thorough: 5 },
-        // generation, deletion, rollback, reopen only
-        Pass { name: "core", ops: vec![InsOmit, InsExplicitNext, MultiOmitOmit, DelMax, DelAll, Truncate, TxnRollbackIns, SavepointRollbackIns, Reopen], depth_quick: 4, depth_thorough: 6 },
+        // no multi-row statement at all: the deepest pass
         Pass { name: "core-small", ops: vec![InsOmit, InsExplicitNext5, DelMax, Truncate, TxnRollbackIns, Reopen], depth_quick: 5, depth_thorough: 7 },
+        // generation, deletion, rollback, savepoint, reopen, two-row generation (reaches KF-C12-04 at depth 5)
+        Pass { name: "core", ops: vec![InsOmit, InsExplicitNext, MultiOmitOmit, DelMax, Truncate, TxnRollbackIns, SavepointRollbackIns, Reopen], depth_quick: 4, depth_thorough: 6 },
     ]
 }
 
@@ -693,7 +694,7 @@ impl Check for C12 {
         let mut s = Spec::new(
             "C12",
             "model_checking",
-            "every history over {insert with omitted id, with NULL id, with explicit id 1 / next / next+5 / large, multi-row inserts mixing omitted and explicit ids (explicit = the value the next omitted one gets), two omitted; delete max row, delete all, TRUNCATE; BEGIN+insert+ROLLBACK, SAVEPOINT+insert+ROLLBACK TO, BEGIN+insert+COMMIT; reopen; insert_batch with explicit next / NULL id; UPDATE of the max id to next} on t(id INT PRIMARY KEY AUTO_INCREMENT, a INT): all 19 ops to depth 3 (quick) / 4 (thorough), 11 ops without the known triggers to depth 4 / 5, 9 core ops to depth 4 / 6, 6 ops to depth 5 / 7, each history executed from a fresh database (no merging: header counter, in-memory row-id counter, index state are hidden); 'next' is resolved against the set of values the harness has seen in the column; a case is one history, non-trivial when its last op attempts an insert; generated values are read from RETURNING id and cross-checked with SELECT *",
+            "every history over {insert with omitted id, with NULL id, with explicit id 1 / next / next+5 / large, multi-row inserts mixing omitted and explicit ids (explicit = the value the next omitted one gets), two omitted; delete max row, delete all, TRUNCATE; BEGIN+insert+ROLLBACK, SAVEPOINT+insert+ROLLBACK TO, BEGIN+insert+COMMIT; reopen; insert_batch with explicit next / NULL id; UPDATE of the max id to next} on t(id INT PRIMARY KEY AUTO_INCREMENT, a INT): all 19 ops to depth 3 (quick) / 4 (thorough), 11 ops without the known triggers to depth 4 / 5, 6 ops to depth 5 / 7, 8 core ops to depth 4 / 6, each history executed from a fresh database (no merging: header counter, in-memory row-id counter, index state are hidden); 'next' is resolved against the set of values the harness has seen in the column; a case is one history, non-trivial when its last op attempts an insert; generated values are read from RETURNING id and cross-checked with SELECT *",
         );
         s.assumptions = &[
             "oracle = property statement only: generated values are distinct from every value the column ever held (explicit, generated, rolled back) and increase among themselves; a statement whose explicit ids are fresh and distinct must not fail with a PRIMARY KEY duplicate caused by a generated value",
